@@ -359,6 +359,7 @@ def _witness_top_level_date(k):
 
 
 WITNESS["F-C05-top-level-date-returned-as-text"] = _witness_top_level_date
+WITNESS["F-C05-tag-named-like-model"] = lambda k: any(":getPet" in f["id"] for f in bounded_tag_named_like_model("quick", 0)["failures"])
 
 
 def bounded_streams(tier, seed):
@@ -379,3 +380,29 @@ def bounded_random_documents(tier, seed):
 
 
 BOUNDED.append(bounded_random_documents)
+
+
+def _tag_like_model_doc():
+    from props import corpus as C
+    return C.doc("TG", [C.op("/pet", "get", "getPet", ["pet"], responses={"200": C.resp_json(C.ref("Pet"))}),
+                        C.op("/pets", "get", "listPets", ["pet"], responses={"200": C.resp_json({"type": "array", "items": C.ref("Pet")})}),
+                        C.op("/err", "get", "getErr", ["Err"], responses={"200": C.resp_json(C.ref("Err")), "201": C.resp_json(C.ref("Pet"))})], C.BASE_SCHEMAS)
+
+
+def bounded_tag_named_like_model(tier, seed):
+    """a tag whose endpoint module has the same stem as a model's module (tag `pet`, schema `Pet`): the operations still return typed values"""
+    from props import randrt
+    r = randrt.run(_tag_like_model_doc(), parts=("responses",))
+    failures = []
+    if r.get("error"):
+        failures.append({"id": "bounded:tag-like-model:harness", "detail": r["error"][-400:], "input": {}})
+    for pr in r.get("problems", []):
+        if pr["part"] == "responses":
+            failures.append({"id": f"bounded:tag-like-model:{pr['kind']}:{pr.get('op')}", "detail": f"{pr.get('op')} {pr.get('case', '')}: {pr['detail']}"[:500],
+                             "input": {"operation": pr.get("op"), "sent": pr.get("sent")}})
+    n = (r.get("counts") or {}).get("responses", 0)
+    return {"function": "generated client of a document whose tags are spelled like its schemas: returned class and re-serialisation of every 2xx response", "backend": "bounded",
+            "bound": "1 document, 3 operations, 2 payload variants each", "evaluations": n, "distinct_nontrivial": n, "exhaustive": False, "failures": failures}
+
+
+BOUNDED.append(bounded_tag_named_like_model)
